@@ -58,5 +58,5 @@ func ruleLFresh(c *Ctx) {
 	}
 	c.Covered["L-fresh:loops"] = loops
 	c.Covered["L-fresh:pointer_appends_in_loops"] = appends
-	c.MinInstances("L-fresh", appends, 8)
+	c.MinInstances("L-fresh", appends, 4)
 }
